@@ -23,7 +23,7 @@ theorem limitErr_ne_nil (i : In) : limitErr i ≠ .nil := by
 theorem success_clean (i : In) (h : (dial i).err = .nil) :
     (dial i).closed = false ∧ ((dial i).dl = .cleared ∨ (dial i).dl = .untouched) := by
   have hne := limitErr_ne_nil i
-  obtain ⟨bg, timeout, ctxEnd, cid, dialDur, hsDur, hsFail, pick⟩ := i
+  obtain ⟨bg, timeout, ctxEnd, cid, dialDur, hsDur, hsFail, pick, ign⟩ := i
   generalize hle : limitErr _ = le at hne
   unfold dial at h ⊢
   simp only [hle] at h ⊢
@@ -44,11 +44,13 @@ theorem failure_closed (i : In) (hc : (dial i).connected = true) (h : (dial i).e
     all_goals simp_all
 
 /-- Dial returns by the earlier of the context's end and the dial timeout, whenever there is one
-    — also when the peer never answers. -/
-theorem returns_by_limit (i : In) (l : Nat) (hl : minO i.ctxEnd i.timeout = some l) (hbg : i.bg = true → i.ctxEnd = none) :
+    — also when the peer never answers. (A NetDial supplied by the user that ignores its context is
+    the one thing Dial cannot cut short: see `returns_after_late_dial`.) -/
+theorem returns_by_limit (i : In) (l : Nat) (hl : minO i.ctxEnd i.timeout = some l) (hbg : i.bg = true → i.ctxEnd = none)
+    (hig : i.dialIgnores = false) :
     ∃ r, (dial i).ret = some r ∧ r ≤ l := by
   unfold dial
-  simp only [hl]
+  simp only [hl, hig, Bool.or_false]
   cases hd : i.dialDur with
   | none => exact ⟨l, by simp, Nat.le_refl _⟩
   | some d =>
@@ -59,22 +61,24 @@ theorem returns_by_limit (i : In) (l : Nat) (hl : minO i.ctxEnd i.timeout = some
       · have hce := hbg hb
         have ht : i.timeout = some l := by rw [hce] at hl; simpa [minO] using hl
         simp only [hb, if_true, ht]
+        have hmx : max l d = l := Nat.max_eq_left (Nat.le_of_lt hdl)
         cases hh : i.hsDur with
-        | none => exact ⟨l, by simp, Nat.le_refl _⟩
+        | none => exact ⟨l, by simp [hmx], Nat.le_refl _⟩
         | some hs =>
           simp only [Option.map]
           by_cases hf : d + hs ≤ l
           · exact ⟨d + hs, by simp [hf], hf⟩
-          · exact ⟨l, by simp [hf], Nat.le_refl _⟩
+          · exact ⟨l, by simp [hf, hmx], Nat.le_refl _⟩
       · simp only [hb, Bool.false_eq_true, if_false]
+        have hmx : max l d = l := Nat.max_eq_left (Nat.le_of_lt hdl)
         cases hh : i.hsDur with
-        | none => exact ⟨l, by simp, Nat.le_refl _⟩
+        | none => exact ⟨l, by simp [hmx], Nat.le_refl _⟩
         | some hs =>
           simp only [Option.map]
           by_cases h1 : d + hs < l
           · exact ⟨d + hs, by simp [h1], by omega⟩
           · by_cases h2 : l < d + hs
-            · exact ⟨l, by simp [h1, h2], Nat.le_refl _⟩
+            · exact ⟨l, by simp [h1, h2, hmx], Nat.le_refl _⟩
             · have : d + hs = l := by omega
               by_cases hp : i.pickCtx = true
               · exact ⟨d + hs, by simp [h1, h2, hp], by omega⟩
@@ -87,15 +91,46 @@ theorem returns_by_limit (i : In) (l : Nat) (hl : minO i.ctxEnd i.timeout = some
 theorem ended_before_finish (i : In) (hb : i.bg = false) (l d : Nat) (hl : minO i.ctxEnd i.timeout = some l)
     (hd : i.dialDur = some d) (hdl : d < l) (hlate : ∀ hs, i.hsDur = some hs → l < d + hs) :
     (dial i).err = limitErr i ∧ (dial i).closed = true ∧ (dial i).ret = some l := by
+  have hmx : max l d = l := Nat.max_eq_left (Nat.le_of_lt hdl)
   unfold dial
-  simp only [hl, hd, hdl, if_true, hb, Bool.false_eq_true, if_false]
+  simp only [hl, hd, hdl, decide_true, Bool.true_or, if_true, hb, Bool.false_eq_true, if_false]
   cases hh : i.hsDur with
-  | none => simp
+  | none => simp [hmx]
   | some hs =>
     have := hlate hs hh
     simp only [Option.map]
     have h1 : ¬ d + hs < l := by omega
-    simp [h1, this]
+    simp [h1, this, hmx]
+
+/-- A NetDial that ignores its context and hands over a connection only after the limit has passed:
+    Dial still fails with the context's error (the timeout error on the background fast path), CLOSES
+    that connection, and returns as soon as NetDial did — whatever the peer does next (unless it answers
+    in no time at all at that very instant). -/
+theorem returns_after_late_dial (i : In) (l d : Nat) (hl : minO i.ctxEnd i.timeout = some l)
+    (hbg : i.bg = true → i.ctxEnd = none) (hig : i.dialIgnores = true) (hd : i.dialDur = some d) (hdl : l ≤ d)
+    (hhs : ∀ hs, i.hsDur = some hs → l < d + hs) :
+    (dial i).connected = true ∧ (dial i).err ≠ .nil ∧ (dial i).closed = true ∧ (dial i).ret = some d := by
+  have hmx : max l d = d := Nat.max_eq_right hdl
+  have hne := limitErr_ne_nil i
+  unfold dial
+  simp only [hl, hd, hig, Bool.or_true, if_true]
+  by_cases hb : i.bg = true
+  · have hce := hbg hb
+    have ht : i.timeout = some l := by rw [hce] at hl; simpa [minO] using hl
+    simp only [hb, if_true, ht]
+    cases hh : i.hsDur with
+    | none => simp [hmx]
+    | some hs =>
+      have := hhs hs hh
+      have hf : ¬ d + hs ≤ l := by omega
+      simp [Option.map, hf, hmx]
+  · simp only [hb, Bool.false_eq_true, if_false]
+    cases hh : i.hsDur with
+    | none => simp [hmx, hne]
+    | some hs =>
+      have := hhs hs hh
+      have h1 : ¬ d + hs < l := by omega
+      simp [Option.map, h1, this, hmx, hne]
 
 /-- The watcher goroutine has always replied by the time Dial returns: done() blocks on its reply
     (structural: the model has no state in which Dial returns without that receive). -/
